@@ -16,6 +16,16 @@ def families(tier, seed):
             for vec in (False, True):
                 out.append(dict(tag=f"{tag}/{form}{i}", features=dict(feats, form=form, req=i), kind="outputs", model=model, request=req,
                                 form=form, vec=vec))
+    # repeated runs on ONE template instance with different vectorize settings: the labels of the last run must not depend on
+    # the grouping of an earlier one
+    for tag, feats, model in gen.c06_families():
+        reqs = gen.c06_requests(tag, model)
+        for i, (form, req) in enumerate(reqs):
+            if i % 3 != (0 if tier == "quick" else i % 3):
+                continue
+            for pre, vec in (((True,), False), ((False,), True), ((True, False), True)):
+                out.append(dict(tag=f"{tag}/{form}{i}/after-{'-'.join('v' if p else 'n' for p in pre)}", features=dict(feats, form=form, req=i, pre=list(pre)),
+                                kind="outputs", model=model, request=req, form=form, vec=vec, pre_runs=list(pre)))
     # the same paths in update_var (C07 has the full set of override scenarios)
     for tag, feats, model, ops in gen.c07_cases():
         if tag.split("-")[0] in ("U1", "U4", "U11", "U13", "U14"):
@@ -31,7 +41,7 @@ def main():
         rule="circuits whose nodes all differ in a parameter: two node types interleaved in 5 declaration orders, a 3-node loop "
              "declared in non-alphabetic order, a depth-1 hierarchy; requests: every variable by its own key, `all` wildcards at "
              "every level, several keys in non-alphabetic order, list form with one / two (reversed) / wildcard paths; vectorize "
-             "off and on; clauses: columns == requested variables, one column each, column == that variable's spec trajectory "
+             "off and on, and after earlier run() calls on the same template instance with the other vectorize setting; clauses: columns == requested variables, one column each, column == that variable's spec trajectory "
              "(and which variable a wrong column really carries); distinct = (model, request, vectorize)",
         sample_of=cases.sample_of)
     rc = chk.finish(
